@@ -606,9 +606,17 @@ func builtinDateSetYear(call FunctionCall) Value {
 // setUTCFullYear, which start from +0 when the date is invalid (15.9.5.40, 15.9.5.41 step 1).
 func builtinDateBeforeSetYear(call FunctionCall, timeLocal bool) (*object, *dateObject, *ecmaTime, []int) {
 	call.ArgumentList = builtinDateConvertArguments(call, 3)
+	invalid := dateObjectOf(call.runtime, call.thisObject()).isNaN
 	obj := call.thisObject()
 	if date := dateObjectOf(call.runtime, obj); date.isNaN {
 		date.Set(0)
+		obj.value = date
+	}
+	if invalid && timeLocal {
+		// 15.9.5.40 step 1: t, the LOCAL time the fields are taken from, is +0:
+		// 1 January 1970 00:00:00.000 in the local zone, not LocalTime(+0).
+		date := dateObjectOf(call.runtime, obj)
+		date.SetTime(time.Date(1970, 1, 1, 0, 0, 0, 0, time.Local)) //nolint:gosmopolitan
 		obj.value = date
 	}
 	return builtinDateBeforeSet(call, 3, timeLocal)
